@@ -104,6 +104,7 @@ UNIT_DRIVERS = {
     "scan_filter_back": ["transaction::cursor_enum_quick"],
     "bptree_node": ["bptree_enum_quick"],
     "history_filter": ["snapshot::timetravel_enum_quick"],
+    "pipeline_failure": ["commit::fault_enum"],
     "vlog_file": ["sstable::table::min_vlog_file_id_enum"],
     "lock_order": ["transaction::cursor_enum_quick"],
 }
